@@ -194,3 +194,8 @@ for ne in (0, 1):
         strength=f"B: mtbl_sorter_iter on a sorter with {ne} buffered entries and <= 2 chunk readers, pooled or not", functions=SO_FUNCS, assumptions=SO_ASSUME, replay="c06")
 add("so_destroy_step", ["C18"], SO_SRC, "h_sorter_destroy_step", unwind=6, timeout=600, safety="P",
     strength="B: mtbl_sorter_destroy with <= 2 buffered entries, <= 2 readers, possibly one chunk job still in flight", functions=SO_FUNCS, assumptions=SO_ASSUME, replay="c18")
+# ---------------------------------------------------------------- libmy/my_fileset.c reload (bounded)
+add("myfs_reload_step", ["C07", "C18"], ["tu/myfs_step.c"], "h_myfs_reload_step", unwind=10, timeout=900, slice=4,
+    strength="B: my_fileset_reload from an arbitrary loaded set of <= 2 of 3 one-letter tables, setfile of <= 2 distinct lines, each table present or missing; resulting set of at most ONE entry (vector growth is cut)",
+    functions=["my_fileset_reload", "setfile_updated", "fetch_entry", "cmp_fileset_entry", "path_exists", "my_fileset_get", "ubuf_add_cstr", "ubuf_rstrip", "ubuf_cstr"],
+    assumptions=["stat / fopen / getline / fclose / dirname modelled (POSIX); bsearch and qsort modelled by their contracts over the caller's comparator", "names are one letter in directory d; setfile changes are detected by inode/mtime (as the code does)"])
